@@ -11,7 +11,7 @@ use std::f64::consts::PI;
 
 pub fn monitor() -> Monitor {
   Monitor { id: "C12",
-    rule: "polygons: 3..9 vertices on sorted bearings (gaps in [0.05, 0.95 pi]) around a centre at radius R (convex, inscribed in a small circle) or R x U(0.3,1) (star-shaped), either winding; R drawn per decade from 1e-10 rad to 0.79 rad, query depth matched so that R/cell is in [0.02, 40]; centres uniform, near meridians k.pi/4 (incl. lon ~ 0), near the transition latitude, never within R + 0.02 rad of a pole; both exact_solution values. Oracles: no panic / abnormal exit, well formed, every vertex's cell covered, convex & full => 4 vertices + centre inside (half-space margin >= -1e-12), R < 0.3 => cell centres within R + 2 x 1.08/nside, Polygon::contains == half-space oracle for points with |margin| > 1e-9 (uniform on the sphere and within 1.5 R). Interior witnesses missed are information only. Non-trivial = polygon crossing lon = 0, a meridian k.pi/2 or the transition latitude, clockwise winding, R below one cell, or R < 1e-6 rad.",
+    rule: "polygons: 3..9 vertices on sorted bearings (gaps in [0.05, 0.95 pi]) around a centre at radius R (convex, inscribed in a small circle) or R x U(0.3,1) (star-shaped), either winding; R drawn per decade from 1e-10 rad to 0.79 rad, query depth matched so that R/cell is in [0.02, 40]; centres uniform, near meridians k.pi/4 (incl. lon ~ 0), near the transition latitude, 1 in 6 inside a polar cap astride lon = 0 or another seam meridian, never within R + 0.02 rad of a pole; both exact_solution values. Oracles: no panic / abnormal exit, well formed, every vertex's cell covered, convex & full => 4 vertices + centre inside (half-space margin >= -1e-12), R < 0.3 => cell centres within r + 2 x 1.08/nside of EVERY containing cone tried (the generation circle and, per edge, a cone of radius < 0.3 centred up to 0.28 rad on the inner side of the edge, i.e. nearly the edge's half-space), Polygon::contains == half-space oracle for points with |margin| > 1e-9 (uniform on the sphere and within 1.5 R). Interior witnesses missed are information only. Non-trivial = polygon crossing lon = 0, a meridian k.pi/2 or the transition latitude, clockwise winding, R below one cell, or R < 1e-6 rad.",
     assumptions: &["half-space oracle for convex polygons (refm::convex_margin)", "Layer::hash (C01) locates vertices"],
     run, replay }
 }
@@ -28,6 +28,8 @@ pub fn gen_poly(rng: &mut Rng) -> Option<Case> {
   let (mut lon, mut lat) = rng.sphere();
   if rng.below(4) == 0 { lon = (rng.below(9) as f64) * PI / 4.0 + (rng.f() - 0.5) * 2.0 * rmax; }
   if rng.below(6) == 0 { lat = trans_lat() * if rng.coin() { 1.0 } else { -1.0 } + (rng.f() - 0.5) * 2.0 * rmax; }
+  // edges crossing lon = 0 (and the other seam meridians) inside a polar cap: the branch of the exact mode's special-point search (R21)
+  if rng.below(6) == 0 { lon = (if rng.coin() { 0.0 } else { rng.below(4) as f64 * PI / 2.0 }) + (rng.f() - 0.5) * 2.0 * rmax; let lo = trans_lat() + 0.01; let hi = PI / 2.0 - 0.03 - rmax; if hi <= lo { return None; } lat = (lo + (hi - lo) * rng.f()) * if rng.coin() { 1.0 } else { -1.0 }; }
   lon = lon.rem_euclid(TWO_PI);
   if lat.abs() + rmax > PI / 2.0 - 0.02 { return None; }
   let nv = 3 + rng.below(7) as usize;
@@ -44,7 +46,7 @@ pub fn gen_poly(rng: &mut Rng) -> Option<Case> {
 fn run(ctx: &mut Ctx, extra: &mut BTreeMap<String, String>) {
   let seed = ctx.seed;
   let small = ctx.pass != "release";
-  let n = if ctx.thorough { if small { 4000 } else { 1_000_000 } } else if small { 400 } else { 40_000 };
+  let n = if ctx.thorough { if small { 4000 } else { 1_000_000 } } else if small { 400 } else { 320_000 };
   extra.insert("polygons".into(), format!("{}", n));
   run_sharded(ctx, 16, |c, k| {
     let mut rng = Rng::new(seed, 1200 + k as u64);
@@ -61,6 +63,7 @@ pub fn judge(ctx: &mut Ctx, c: &Case) {
   // classification
   let lons: Vec<f64> = poly.iter().map(|p| p.0).collect();
   let crosses0 = lons.iter().any(|&l| l < 1.0) && lons.iter().any(|&l| l > 5.0);
+  if crosses0 && poly.iter().any(|p| p.1.abs() > trans_lat()) { ctx.hard("polygon:edge-crosses-lon=0-inside-a-polar-cap", &fp); }
   let dl = { let m = lon.rem_euclid(PI / 2.0); m.min(PI / 2.0 - m) };
   let mut hard = false;
   if crosses0 { ctx.hard("polygon:crosses-lon=0", &fp); hard = true; }
@@ -70,6 +73,21 @@ pub fn judge(ctx: &mut Ctx, c: &Case) {
   if rmax < 1e-6 { ctx.hard("polygon:R<1e-6rad", &fp); hard = true; }
   if c.gb("cw") { ctx.hard("polygon:clockwise", &fp); hard = true; }
   if !hard { ctx.bump("plain-polygons"); }
+  // cones containing the polygon (the statement quantifies over any such cone of radius < 0.3): the generation circle, and for
+  // each edge a cone centred far on the inner side of the edge (nearly the half-space of that edge) whose radius reaches the farthest vertex
+  let mut cones: Vec<([f64; 3], f64)> = Vec::new();
+  if rmax < 0.3 {
+    cones.push((v3((lon, lat)), rmax));
+    let g = v3((lon, lat)); let vs: Vec<[f64; 3]> = poly.iter().map(|p| v3(*p)).collect();
+    let ang = |a: [f64; 3], b: [f64; 3]| norm(cross(a, b)).atan2(dot(a, b));
+    for i in 0..vs.len() { let (a, b) = (vs[i], vs[(i + 1) % vs.len()]);
+      let mut n = cross(a, b); let nn = norm(n); if nn < 1e-300 { continue; } n = [n[0] / nn, n[1] / nn, n[2] / nn]; if dot(n, g) < 0.0 { n = [-n[0], -n[1], -n[2]]; }
+      let mut m = [a[0] + b[0], a[1] + b[1], a[2] + b[2]]; let mn = norm(m); m = [m[0] / mn, m[1] / mn, m[2] / mn];
+      for &rho in [0.28, 0.2, 0.1, 0.03, 0.01].iter() { let rho = if rho < 3.0 * rmax { continue } else { rho }; let (sr, cr) = f64::sin_cos(rho);
+        let cc = [m[0] * cr + n[0] * sr, m[1] * cr + n[1] * sr, m[2] * cr + n[2] * sr];
+        let r = vs.iter().map(|v| ang(cc, *v)).fold(0.0, f64::max) * (1.0 + 1e-9) + 1e-15;
+        if r < 0.3 { cones.push((cc, r)); break; } } }
+  }
   for &exact in [false, true].iter() {
     let ce = c.clone().b("exact", exact);
     ctx.eval();
@@ -94,8 +112,10 @@ pub fn judge(ctx: &mut Ctx, c: &Case) {
       }
       if rmax < 0.3 {
         ctx.eval();
-        let dc = dist(ref_center(d, h), (lon, lat));
-        if dc > (rmax + 2.0 * cell_radius_bound(d)) * (1.0 + 1e-12) { ctx.violation("reported-cell-farther-than-R+2-cell-radii", ce.clone().u("cd", d as u64).u("ch", h), format!("cell {}/{} centre at {:e}, R={:e}", d, h, dc, rmax)); break; }
+        let cv = v3(ref_center(d, h)); let mut far = None;
+        for (k, (cc, r)) in cones.iter().enumerate() { let dc = if k == 0 { dist(ref_center(d, h), (lon, lat)) } else { norm(cross(*cc, cv)).atan2(dot(*cc, cv)) };
+          if dc > (r + 2.0 * cell_radius_bound(d)) * (1.0 + 1e-9) + 1e-15 { far = Some((k, dc, *r)); break; } }
+        if let Some((k, dc, r)) = far { ctx.violation("reported-cell-farther-than-R+2-cell-radii", ce.clone().u("cd", d as u64).u("ch", h).u("cone", k as u64), format!("cell {}/{} centre at {:e} from the centre of containing cone #{} of radius {:e} (cone 0 = generation circle, k>0 = cone hugging edge k-1); 2 x c2v bound = {:e}", d, h, dc, k, r, 2.0 * cell_radius_bound(d))); break; }
       }
     }
     // interior witnesses: information only (not claimed)
